@@ -19,7 +19,7 @@ func init() {
 	core.Register(&core.Check{
 		ID:    "C07",
 		Level: "fault_enumeration",
-		Rule: "a raise (explicit ValueErr through a nested call, and a natural ZeroDivisionErr) is injected at every evaluation slot of every construct (array/object/map literal incl. unpacking, range bounds, call callee/arguments/keyword/unpack/trailing function, receiver, chain argument, " +
+		Rule: "a raise (explicit ValueErr through a nested call, a natural ZeroDivisionErr, and a natural StopIterErr outside iterator bodies) is injected at every evaluation slot of every construct (array/object/map literal incl. unpacking, range bounds, call callee/arguments/keyword/unpack/trailing function, receiver, chain argument, " +
 			"infix/prefix operands, if/else parts, guarded jumps, assignment, embedded string pieces, index expressions, keyword defaults, element k of n in the 9 non-thoughtful chain context x 3 call forms), " +
 			"single level and nested two levels, in 6 contexts (top-level program, function body with pending defer, try step, thoughtful scalar chain, list-chain element, deferred expression); " +
 			"oracle: nothing but pending-defer output after the marker, no assignment, injected kind+message reaches the handler/top, no error object stored inside a value; " +
@@ -36,6 +36,7 @@ func init() {
 const prelude = `t := {|k, v| ("t" + k.S).p; v}
 bm := {|k| "m".p; raise ValueErr.new("boom" + k.S)}
 nb := {|k| "m".p; 1 / 0}
+si := {|k| "m".p; []._iter.next}
 ff := {|a, b, k: 0, j: 0| [a, b, k, j]}
 id := {|x| x}
 oo := {m: m{|a, b| [a, b]}}
@@ -242,6 +243,9 @@ func wantErr(t tcase) (string, string) {
 	if t.Fault == "nb" {
 		return "ZeroDivisionErr", "cannot be divided by 0"
 	}
+	if t.Fault == "si" {
+		return "StopIterErr", "iter stopped"
+	}
 	return "ValueErr", fmt.Sprintf("boom%d", t.faultNo())
 }
 
@@ -408,6 +412,11 @@ func gen(thorough bool, emit func(tcase)) {
 					}
 					emit(tcase{Outer: oi, OuterName: oc.Name, Slot: s, Inner: -1, Ctx: ctx, Fault: fk})
 				}
+				// the error kind the interpreter itself uses to end iteration, raised by an ordinary step:
+				// it is an error like any other wherever the step is not the body of an iterator
+				if !inIterBody(oc) {
+					emit(tcase{Outer: oi, OuterName: oc.Name, Slot: s, Inner: -1, Ctx: ctx, Fault: "si"})
+				}
 			}
 		}
 	}
@@ -452,6 +461,12 @@ func gen(thorough bool, emit func(tcase)) {
 			}
 		}
 	}
+}
+
+// inIterBody: constructs whose slots are evaluated inside an iterator body (written, or native select/doWhile),
+// where raising StopIterErr is how an iterator says it is exhausted.
+func inIterBody(oc construct) bool {
+	return strings.HasPrefix(oc.Name, "iter-") || strings.HasPrefix(oc.Name, "native-") || oc.Name == "guarded-yield" || oc.Name == "stmt-list-after-yield"
 }
 
 // nestable: slots whose value may be an arbitrary expression without changing what the outer
